@@ -403,6 +403,10 @@ class ProductState:
             List of states to apply the operators to, the tensoring order in operators
             must follow the order of the states in this list
         """
+        # A channel in general produces a mixture: always work on the density matrix
+        if self.expansion_level == ExpansionLevel.Vector:
+            self.expand()
+
         if self.expansion_level == ExpansionLevel.Vector:
             # Get the state and reshape it
             shape = [s.dimensions for s in self.state_objs]
